@@ -47,6 +47,11 @@ CHECKS = {
         text="TLA+ model of the patcher's stream state machine with whitelist skipping (end-marker recognition modelled as the code does it: protobuf field 1 of whatever message is read) model-checked over all patches of 3 files built from 6 series shapes (incl. bsdiff series targeting index 2049) x every whitelist. Real patcher runs with a recording bowl and a recording target pool on plain and optimized patches of generated build pairs (incl. an old build with > 2049 files) for every subset (<= 5 files) or seeded subsets; TLC checks no error, touched = |W|, bowl asked exactly for W, old files read only as the whitelisted series allow, whitelisted outputs identical to the new build.",
         note="SHA-256 digests stand for byte equality; non-whitelisted paths are not inspected.",
         technique="TLA+ model checking (TLC) + trace validation of real whitelisted applications against the TLA+ property"),
+    "C03": dict(
+        level="model_checking", ref="DESIGN.md §4 C03",
+        text="TLA+ model of the patcher's stream state machine with the save protocol, stop, crash (writes after the checkpoint wholly or partly on disk) and resume into a new patcher from any checkpoint of the lineage, model-checked over all patches of NF files from 6 series shapes with up to 2 resumes (reader/source gap and overlay sessions are model-checked in C13/C14). Over the matrix {fresh, overlay} x {plain, optimized} x {none, gzip, brotli}: an always-save real run logs every checkpoint (gob-encoded at Save) and TLC checks each against the independently decoded message table, predicts the checkpoint boundaries of the byte-granular source (drift) and checks that checkpoints keep coming; real runs are stopped at checkpoint k+lag, lose unsynced suffixes, and are resumed from the gob-decoded checkpoint k in a brand-new patcher + bowl (with further stop/resume chains); the committed tree must equal the new build.",
+        note="crash model: data before a checkpoint is durable, later files keep arbitrary prefixes; no crash during Commit; SHA-256 digests stand for byte equality.",
+        technique="TLA+ model checking (TLC) + trace validation of real checkpoints and real crash/resume executions against the TLA+ property"),
 }
 
 NOT_YET = "check not built yet in this round (planned: DESIGN.md §4); not a claim that the technique cannot apply"
